@@ -771,6 +771,43 @@ func (g *genCase) pxCase() string {
 	return fmt.Sprintf("px %s %d %s %d %d %d %s %s", coding, min, ae, interval, n1, n2, kind, sched)
 }
 
+// scCase: file_server's sidecar selection with injected Stat/Open outcomes
+func (g *genCase) scCase() string {
+	rng := g.rng
+	all := shuffle(rng, []string{"gzip", "zstd", "br"})
+	order := all[:1+rng.Intn(3)]
+	if rng.Chance(1, 10) {
+		order = nil
+	}
+	faults := make([]byte, 3)
+	for i := range faults {
+		faults[i] = "oooxxnnb--d"[rng.Intn(11)]
+	}
+	ae := "~"
+	if !rng.Chance(1, 12) {
+		switch rng.Intn(3) {
+		case 0:
+			ae = core.Hex(rng.Pick([]string{"gzip", "zstd", "br", "gzip, zstd, br", "br, gzip", "zstd, gzip", "gzip, deflate, br, zstd", "identity", "*", "gzip;q=0, zstd", "br;q=0.5, gzip;q=0.9"}))
+		case 1:
+			ae = core.Hex(g.rfcHeader([]string{"gzip", "zstd"}, rng.Pick([]string{"gzip", "zstd", ""})))
+		default:
+			ae = core.Hex(strings.Join(shuffle(rng, []string{"gzip", "zstd", "br"})[:1+rng.Intn(3)], ", "))
+		}
+	}
+	method := "G"
+	switch rng.Intn(10) {
+	case 0:
+		method = "H"
+	case 1:
+		method = "P"
+	}
+	etag := "0"
+	if rng.Chance(1, 5) {
+		etag = rng.Pick([]string{"1", "1", "2"})
+	}
+	return fmt.Sprintf("sc %s %s %s %d %s %s", namesField(order), string(faults), ae, rng.Intn(2), method, etag)
+}
+
 func (p *prop) Generate(rng *core.Rand, tier string, emit func(string)) {
 	n := 6000
 	switch tier {
@@ -811,6 +848,18 @@ func (p *prop) Generate(rng *core.Rand, tier string, emit func(string)) {
 	}
 	for i := 0; i < npx; i++ {
 		emit(g.pxCase())
+	}
+	nsc := 700
+	if tier == "thorough" {
+		nsc = 10000
+	} else if tier == "search" {
+		nsc = 3000
+	}
+	for i := 0; i < nsc; i++ {
+		emit(g.scCase())
+	}
+	for _, m := range []string{"sc gzip ooo ~ 0 G", "sc gzip oo ~ 0 G 0", "sc gzip,gzip ooo ~ 0 G 0", "sc deflate ooo ~ 0 G 0", "sc gzip oqo ~ 0 G 0", "sc gzip ooo zz 0 G 0", "sc gzip ooo ~ 2 G 0", "sc gzip ooo ~ 0 X 0", "sc gzip ooo ~ 0 G 3"} {
+		emit(m)
 	}
 	// the scripted handler behind a real response recorder behind encode (templates / intercept shape)
 	nrr := 600
